@@ -201,6 +201,10 @@ MUTANTS = [
     ("C20", "unified_planning/model/types.py",
      "            b.append(\"-inf\" if self.lower_bound is None else str(self.lower_bound))\n            b.append(\", \")\n            b.append(\"inf\" if self.upper_bound is None else str(self.upper_bound))\n            b.append(\"]\")\n        return \"real\" + \"\".join(b)",
      "            b.append(\"-inf\" if self.lower_bound is None else str(self.lower_bound))\n            b.append(\", \")\n            b.append(\"+inf\" if self.upper_bound is None else str(self.upper_bound))\n            b.append(\"]\")\n        return \"real\" + \"\".join(b)", "real types"),
+    ("C05", "unified_planning/engines/plan_validator.py",
+     "        if sorted_times[mid] < target_time:\n            result = sorted_times[mid]", "        if sorted_times[mid] <= target_time:\n            result = sorted_times[mid]", "binary_search"),
+    ("C05", "unified_planning/engines/plan_validator.py",
+     "            result = sorted_times[mid]\n            left = mid + 1\n        else:\n            right = mid - 1", "            result = sorted_times[mid]\n            left = mid + 1\n        else:\n            right = mid - 2", "binary_search"),
     ("C11", "unified_planning/model/walkers/simplifier.py",
      "            return self.manager.Bool(not l)", "            return self.manager.Bool(l)", "walk_not"),
 ]
